@@ -29,7 +29,9 @@ use routee_compass_core::model::cost::cost_model::CostModel;
 use routee_compass_core::model::cost::network::network_cost_rate::NetworkCostRate;
 use routee_compass_core::model::cost::vehicle::vehicle_cost_rate::VehicleCostRate;
 use routee_compass_core::model::network::{EdgeId, VertexId};
+use routee_compass_core::model::traversal::default::speed_traversal_engine::SpeedTraversalEngine;
 use routee_compass_core::model::unit::as_f64::AsF64;
+use routee_compass_core::model::unit::{DistanceUnit, SpeedUnit, TimeUnit};
 use routee_compass_core::model::unit::Cost;
 use routee_compass_core::util::geo::haversine;
 use serde_json::{json, Value};
@@ -434,18 +436,26 @@ enum Rate {
     Raw,
     Factor(f64),
     Zero,
+    Offset(f64),
+    /// applied one after the other, in order (VehicleCostRate::Combined)
+    Combined(Vec<Rate>),
 }
 fn rate_json(r: &Rate) -> Value {
     match r {
         Rate::Raw => json!({"type": "raw"}),
         Rate::Factor(f) => json!({"type": "factor", "factor": f}),
         Rate::Zero => json!({"type": "zero"}),
+        Rate::Offset(o) => json!({"type": "offset", "offset": o}),
+        // (not the serde form of the repository - that one cannot be read back; case descriptions only)
+        Rate::Combined(l) => json!({"type": "combined", "chain": l.iter().map(rate_json).collect::<Vec<_>>()}),
     }
 }
 fn rate_from_json(v: &Value) -> Rate {
     match v["type"].as_str().unwrap() {
         "raw" => Rate::Raw,
         "zero" => Rate::Zero,
+        "offset" => Rate::Offset(v["offset"].as_f64().unwrap()),
+        "combined" => Rate::Combined(v["chain"].as_array().unwrap().iter().map(rate_from_json).collect()),
         _ => Rate::Factor(v["factor"].as_f64().unwrap()),
     }
 }
@@ -454,6 +464,8 @@ fn rate_real(r: &Rate) -> VehicleCostRate {
         Rate::Raw => VehicleCostRate::Raw,
         Rate::Factor(f) => VehicleCostRate::Factor { factor: *f },
         Rate::Zero => VehicleCostRate::Zero,
+        Rate::Offset(o) => VehicleCostRate::Offset { offset: *o },
+        Rate::Combined(l) => VehicleCostRate::Combined(l.iter().map(rate_real).collect()),
     }
 }
 fn rate_coq(r: &Rate) -> String {
@@ -461,14 +473,22 @@ fn rate_coq(r: &Rate) -> String {
         Rate::Raw => "RC.Model.Cost.Cost.VRaw".into(),
         Rate::Factor(f) => format!("(RC.Model.Cost.Cost.VFactor {})", coq_f64(*f)),
         Rate::Zero => "RC.Model.Cost.Cost.VZero".into(),
+        Rate::Offset(o) => format!("(RC.Model.Cost.Cost.VOffset {})", coq_f64(*o)),
+        Rate::Combined(l) => format!("(RC.Model.Cost.Cost.VCombined {})", coq_list(l, rate_coq)),
     }
 }
+/// Combined cannot be written in a configuration file or a query (internally tagged enum with a sequence payload):
+/// the TOML carries a placeholder and run_real installs the real rate in the cost model service
 fn rate_toml(r: &Rate) -> String {
     match r {
-        Rate::Raw => "{ type = \"raw\" }".into(),
+        Rate::Raw | Rate::Combined(_) => "{ type = \"raw\" }".into(),
         Rate::Factor(f) => format!("{{ type = \"factor\", factor = {:?} }}", f),
         Rate::Zero => "{ type = \"zero\" }".into(),
+        Rate::Offset(o) => format!("{{ type = \"offset\", offset = {:?} }}", o),
     }
+}
+fn rate_has(r: &Rate, p: &dyn Fn(&Rate) -> bool) -> bool {
+    p(r) || matches!(r, Rate::Combined(l) if l.iter().any(|x| rate_has(x, p)))
 }
 
 type Assoc<T> = Vec<(String, T)>;
@@ -502,6 +522,9 @@ struct RealCase {
     t: usize,
     /// the network satisfies len >= great-circle (else A* makes no claim)
     metric: bool,
+    /// queries run on the SAME application instance before the measured one (CompassApp::run, one at a time): each
+    /// an object with optional "weights" / "vehicle_rates" / "cost_aggregation" overrides (empty = a plain query)
+    warm: Vec<Value>,
 }
 
 fn assoc_json<T>(a: &Assoc<T>, f: impl Fn(&T) -> Value) -> Value {
@@ -517,7 +540,7 @@ fn case_to_json(c: &RealCase) -> Value {
         "cfg_w": assoc_json(&c.cfg_w, |x| json!(x)), "cfg_v": assoc_json(&c.cfg_v, rate_json),
         "cfg_n": c.cfg_n.as_ref().map(|(n, l)| json!({"feature": n, "lookup": l})), "cfg_mul": c.cfg_mul,
         "q_w": c.q_w.as_ref().map(|a| assoc_json(a, |x| json!(x))), "q_v": c.q_v.as_ref().map(|a| assoc_json(a, rate_json)),
-        "q_mul": c.q_mul, "alg_wf": c.alg_wf, "q_wf": c.q_wf, "reverse": c.reverse, "s": c.s, "t": c.t, "metric": c.metric,
+        "q_mul": c.q_mul, "alg_wf": c.alg_wf, "q_wf": c.q_wf, "reverse": c.reverse, "s": c.s, "t": c.t, "metric": c.metric, "warm": c.warm,
     })
 }
 fn case_from_json(v: &Value) -> RealCase {
@@ -545,6 +568,7 @@ fn case_from_json(v: &Value) -> RealCase {
         s: v["s"].as_u64().unwrap() as usize,
         t: v["t"].as_u64().unwrap() as usize,
         metric: v["metric"].as_bool().unwrap_or(true),
+        warm: v["warm"].as_array().cloned().unwrap_or_default(),
     }
 }
 
@@ -583,6 +607,12 @@ fn write_files(dir: &Path, c: &RealCase) -> (String, String, String) {
         std::fs::write(&f, s).unwrap();
         f.to_str().unwrap().to_string()
     };
+    let mut ge = String::new();
+    for (s, d, _, _) in c.edges.iter() {
+        let (a, b) = (c.coords[*s], c.coords[*d]);
+        ge += &format!("LINESTRING ({:?} {:?}, {:?} {:?})\n", a.0, a.1, b.0, b.1);
+    }
+    p("geoms.txt", ge);
     (p("edges.csv", e), p("vertices.csv", v), p("speeds.txt", sp))
 }
 
@@ -622,7 +652,13 @@ fn toml_of(c: &RealCase, files: &(String, String, String)) -> String {
     // per-edge surcharge tables cannot be written in a configuration file (NetworkCostRate::EdgeLookup does not
     // deserialise: internally tagged enum + integer-keyed map); run_real installs them in the cost model service
     t += "[cost.network_rates]\n";
-    t += "[plugin]\ninput_plugins = []\noutput_plugins = []\n";
+    if c.warm.is_empty() {
+        t += "[plugin]\ninput_plugins = []\noutput_plugins = []\n";
+    } else {
+        // application-level sequences read the route (edge ids), its cost and the cost-model echo from the responses
+        let geoms = Path::new(&files.0).with_file_name("geoms.txt");
+        t += &format!("[plugin]\ninput_plugins = []\noutput_plugins = [ {{ type = \"traversal\", route = \"edge_id\", geometry_input_file = {:?} }} ]\n", geoms.to_str().unwrap());
+    }
     t
 }
 
@@ -687,27 +723,85 @@ fn run_real(c: &RealCase, id: usize, work: &Path) -> Result<RealRun, String> {
     let conf = dir.join("compass.toml");
     std::fs::write(&conf, &toml).map_err(|e| e.to_string())?;
     let conf_s = conf.to_str().unwrap().to_string();
-    let app: CompassApp = match catch(move || CompassApp::try_from_config_toml_string(toml, conf_s, &CompassAppBuilder::default())) {
-        Ok(Ok(app)) => app,
-        Ok(Err(e)) => return Err(format!("build error: {}", e)),
-        Err(p) => return Err(format!("build panic: {}", p)),
+    let build_app = || -> Result<CompassApp, String> {
+        let (t2, c2) = (toml.clone(), conf_s.clone());
+        match catch(move || CompassApp::try_from_config_toml_string(t2, c2, &CompassAppBuilder::default())) {
+            Ok(Ok(app)) => Ok(app),
+            Ok(Err(e)) => Err(format!("build error: {}", e)),
+            Err(p) => Err(format!("build panic: {}", p)),
+        }
     };
+    let app: CompassApp = build_app()?;
     let q_as = query_of(c, true);
     let q_dj = query_of(c, false);
+    // ---- application-level sequence: the warm-up queries and then the measured one go through CompassApp::run on this
+    //      ONE instance, one at a time; every response must be what the same query gets alone on a fresh instance
+    let mut seq_note = "seq=OK".to_string();
+    let mut seq_kinds: Vec<String> = vec![];
+    if !c.warm.is_empty() {
+        let mut plain = c.clone();
+        plain.q_w = None;
+        plain.q_v = None;
+        plain.q_mul = None;
+        let base = query_of(&plain, true);
+        let mut all: Vec<Value> = c
+            .warm
+            .iter()
+            .map(|o| {
+                let mut q = base.clone();
+                if let Some(m) = o.as_object() {
+                    for (k, v) in m {
+                        q[k.as_str()] = v.clone();
+                    }
+                }
+                q
+            })
+            .collect();
+        all.push(q_as.clone());
+        let digest = |r: Result<Vec<Value>, String>| -> String {
+            match r {
+                Err(e) => format!("run-error:{}", e.chars().take(60).collect::<String>()),
+                Ok(v) => match v.first() {
+                    None => "no-response".into(),
+                    Some(x) => match x.get("route") {
+                        Some(rt) => show_json(&json!({"path": rt["path"], "cost": rt["cost"], "cost_model": rt["cost_model"]}), true),
+                        None => format!("error:{}", x.get("error").map(|e| e.to_string()).unwrap_or_default().chars().take(60).collect::<String>()),
+                    },
+                },
+            }
+        };
+        for (i, q) in all.iter().enumerate() {
+            let q1 = q.clone();
+            let in_seq = digest(catch(std::panic::AssertUnwindSafe(|| app.run(vec![q1], None).map_err(|e| e.to_string()))).unwrap_or_else(|p| Err(format!("panic {}", p))));
+            let fresh = build_app()?;
+            let q2 = q.clone();
+            let alone = digest(catch(std::panic::AssertUnwindSafe(|| fresh.run(vec![q2], None).map_err(|e| e.to_string()))).unwrap_or_else(|p| Err(format!("panic {}", p))));
+            seq_kinds.push(format!("seq_response:{}", if alone.starts_with('{') { "route" } else { "error" }));
+            if in_seq != alone && seq_note == "seq=OK" {
+                let short = |x: &str| -> String {
+                    // the part that matters: path and total cost
+                    let p = x.find("path:").map(|k| x[k..].chars().take(40).collect::<String>()).unwrap_or_else(|| x.chars().take(40).collect());
+                    p.replace(' ', "")
+                };
+                seq_note = format!("seq=DIFF(query#{}of{}:alone<{}>in-sequence<{}>)", i + 1, all.len(), short(&alone), short(&in_seq));
+            }
+        }
+    }
     // the REAL CostModelService / traversal service / state model assemble the instance for this query
     let si0: SearchInstance = app.search_app.build_search_instance(&q_as).map_err(|e| format!("instance: {}", e))?;
     let nrates: HashMap<String, NetworkCostRate> = match &c.cfg_n {
         None => HashMap::new(),
         Some((f, l)) => HashMap::from([(f.clone(), NetworkCostRate::EdgeLookup { lookup: l.iter().map(|(e, x)| (EdgeId(*e), Cost::new(*x))).collect() })]),
     };
-    let si: SearchInstance = if c.cfg_n.is_none() {
+    let has_combined = c.cfg_v.iter().any(|(_, r)| rate_has(r, &|x| matches!(x, Rate::Combined(_))));
+    let si: SearchInstance = if c.cfg_n.is_none() && !has_combined {
         si0
     } else {
         // the REAL CostModelService::build, on a copy of the configured service that carries the surcharge table
         let svc0 = &app.search_app.cost_model_service;
         let svc = CostModelService {
-            vehicle_rates: svc0.vehicle_rates.clone(),
-            network_rates: Arc::new(nrates.clone()),
+            vehicle_rates: if has_combined { Arc::new(c.cfg_v.iter().map(|(k, v)| (k.clone(), rate_real(v))).collect::<HashMap<_, _>>()) } else { svc0.vehicle_rates.clone() },
+            network_rates: if c.cfg_n.is_some() { Arc::new(nrates.clone()) } else { svc0.network_rates.clone() },
             weights: svc0.weights.clone(),
             cost_aggregation: svc0.cost_aggregation,
             ignore_unknown_weights: svc0.ignore_unknown_weights,
@@ -752,10 +846,26 @@ fn run_real(c: &RealCase, id: usize, work: &Path) -> Result<RealRun, String> {
     };
     let m = c.edges.len();
     let ec: Vec<String> = (0..m).map(|e| show_r(EdgeTraversal::forward_traversal(EdgeId(e), None, &init, &si).map(|et| et.total_cost().as_f64()).map_err(|e| e.to_string()))).collect();
-    let est: Vec<String> = (0..c.coords.len())
-        .map(|v| show_r(si.estimate_traversal_cost(VertexId(v), VertexId(c.t), &init).map(|x| Cost::new(x.as_f64() * Cost::new(wf_eff).as_f64()).as_f64()).map_err(|e| e.to_string())))
+    let est_vals: Vec<Result<f64, String>> = (0..c.coords.len())
+        .map(|v| si.estimate_traversal_cost(VertexId(v), VertexId(c.t), &init).map(|x| Cost::new(x.as_f64() * Cost::new(wf_eff).as_f64()).as_f64()).map_err(|e| e.to_string()))
         .collect();
+    let est: Vec<String> = est_vals.iter().map(|r| show_r(r.clone())).collect();
     let i_payload = format!("ec={} est={}", show_list(&ec, |s| s.clone()), show_list(&est, |s| s.clone()));
+    // the REAL SpeedTraversalEngine built from the same table and units: its free-flow bound
+    let engine_max: Option<f64> = if c.speed_model {
+        let su: SpeedUnit = serde_json::from_value(json!(c.su)).map_err(|e| e.to_string())?;
+        let du: Option<DistanceUnit> = match &c.du {
+            Some(u) => Some(serde_json::from_value(json!(u)).map_err(|e| e.to_string())?),
+            None => None,
+        };
+        let tu: Option<TimeUnit> = match &c.tu {
+            Some(u) => Some(serde_json::from_value(json!(u)).map_err(|e| e.to_string())?),
+            None => None,
+        };
+        Some(SpeedTraversalEngine::new(&PathBuf::from(&files.2), su, du, tu).map_err(|e| format!("engine: {}", e))?.max_speed.as_f64())
+    } else {
+        None
+    };
     // ---- the searches: Dijkstra (no weight factor in its query) and the configured A* with the query as given
     let dj = route_of(SearchAlgorithm::Dijkstra.run_vertex_oriented(VertexId(c.s), Some(VertexId(c.t)), &q_dj, &dir_r, &si));
     let ast = route_of(app.search_app.search_algorithm.run_vertex_oriented(VertexId(c.s), Some(VertexId(c.t)), &q_as, &dir_r, &si));
@@ -789,33 +899,11 @@ fn run_real(c: &RealCase, id: usize, work: &Path) -> Result<RealRun, String> {
             None => EdgeTraversal::forward_traversal(EdgeId(loc_edge), None, &st, &si).map(|et| et.total_cost().as_f64()).map_err(|e| e.to_string()),
         });
     }
-    let i_payload = format!("{} loc={}", i_payload, show_list(&loc_vals, |r| show_r(r.clone())));
-    // ---- specification side: the cost model of the weights / rates / aggregation IN FORCE, built directly
-    let eff_w: &Assoc<f64> = c.q_w.as_ref().unwrap_or(&c.cfg_w);
+    let i_payload = format!("{} loc={} mx={}", i_payload, show_list(&loc_vals, |r| show_r(r.clone())), engine_max.map(show_f64).unwrap_or("-".into()));
+    // ---- the objective in force by the specification: the query's weights / rates / aggregation when present, else the
+    //      configured ones (the S line prices the routes with the OBJECTIVE MODEL built from exactly these)
     let eff_v: &Assoc<Rate> = c.q_v.as_ref().unwrap_or(&c.cfg_v);
     let eff_mul = c.q_mul.unwrap_or(c.cfg_mul);
-    let cm_spec = CostModel::new(
-        Arc::new(eff_w.iter().cloned().collect::<HashMap<_, _>>()),
-        Arc::new(eff_v.iter().map(|(k, v)| (k.clone(), rate_real(v))).collect::<HashMap<_, _>>()),
-        Arc::new(nrates),
-        if eff_mul { CostAggregation::Mul } else { CostAggregation::Sum },
-        si.state_model.clone(),
-    )
-    .map_err(|e| format!("spec cost model: {}", e))?;
-    let si_spec = SearchInstance {
-        directed_graph: si.directed_graph.clone(),
-        state_model: si.state_model.clone(),
-        traversal_model: si.traversal_model.clone(),
-        access_model: si.access_model.clone(),
-        cost_model: Arc::new(cm_spec),
-        frontier_model: si.frontier_model.clone(),
-        termination_model: si.termination_model.clone(),
-    };
-    let mut spec_costs: Vec<f64> = vec![];
-    for e in 0..m {
-        let et = EdgeTraversal::forward_traversal(EdgeId(e), None, &init, &si_spec).map_err(|e| format!("spec traversal: {}", e))?;
-        spec_costs.push(et.total_cost().as_f64());
-    }
     // ---- oracle hygiene and the metric hypothesis (A* claims only on metrically consistent networks)
     let mut hist = vec![];
     let mut hygiene = true;
@@ -832,7 +920,13 @@ fn run_real(c: &RealCase, id: usize, work: &Path) -> Result<RealRun, String> {
         }
     }
     let sum_agg = !eff_mul;
-    let as_claim = metric_ok && sum_agg && (0.0..=1.0).contains(&wf_eff);
+    // Offset rates are outside the A* claim (as in the property's own list of rate shapes)
+    let no_offset = !eff_v.iter().any(|(_, r)| rate_has(r, &|x| matches!(x, Rate::Offset(_))));
+    let as_claim = metric_ok && sum_agg && no_offset && (0.0..=1.0).contains(&wf_eff);
+    hist.extend(seq_kinds.iter().cloned());
+    hist.push(format!("sequence_len:{}", if c.warm.is_empty() { 0 } else { c.warm.len() + 1 }));
+    hist.push(format!("combined_rates:{}", has_combined));
+    hist.push(format!("table_above_soft_max:{}", c.speed_model && c.edges.iter().any(|e| e.3 > match c.su.as_str() { "meters_per_second" => 33.528, "miles_per_hour" => 75.0, _ => 120.675 })));
     hist.push(format!("metric_ok:{}", metric_ok));
     hist.push(format!("as_claim:{}", as_claim));
     let show_rt = |tag: &str, r: &(String, Vec<usize>)| {
@@ -843,7 +937,7 @@ fn run_real(c: &RealCase, id: usize, work: &Path) -> Result<RealRun, String> {
         }
     };
     let mut j_payload = format!("{} {}", show_rt("dj", &dj), if as_claim { show_rt("as", &ast) } else { "as=noclaim".to_string() });
-    j_payload += " loc=OK";
+    j_payload += &format!(" loc=OK {} mx=OK {}", if as_claim { "adm=OK" } else { "adm=noclaim" }, seq_note);
     if !hygiene {
         j_payload += " HYGIENE-FAIL(implementation haversine differs from the independent great-circle distance by more than 0.5 %)";
     }
@@ -879,9 +973,8 @@ fn run_real(c: &RealCase, id: usize, work: &Path) -> Result<RealRun, String> {
     let agg = |m: bool| if m { "RC.Model.Cost.Cost.AMul" } else { "RC.Model.Cost.Cost.ASum" };
     let gct: Vec<f64> = (0..c.coords.len()).map(|v| impl_gc(c.coords[v], c.coords[c.t])).collect();
     let lens: Vec<f64> = c.edges.iter().map(|e| e.2).collect();
-    let m_term = format!(
-        "OR.rline_M FN {}%Z (OR.mkRW FN {} {} {} {} {} {} {} {} {} true {} {} {} {})",
-        id,
+    let w_term = format!(
+        "(OR.mkRW FN {} {} {} {} {} {} {} {} {} true {} {} {} {})",
         coq_list(&names, |n| coq_string(n)),
         coq_list(&init, |x| f(x.0)),
         tm,
@@ -896,21 +989,26 @@ fn run_real(c: &RealCase, id: usize, work: &Path) -> Result<RealRun, String> {
         coq_opt(&c.q_mul, |m| agg(*m).to_string()),
         f(wf_eff)
     );
+    let m_term = format!("OR.rline_M FN {}%Z {}", id, w_term);
     let m_term = format!("{} {} {} {}", m_term, loc_edge, coq_list(&loc_route, |e| e.to_string()), coq_list(&loc_pos, |e| e.to_string()));
     let rr = |r: &(String, Vec<usize>)| format!("({}, {})", coq_string(&r.0), coq_list(&r.1, |e| e.to_string()));
+    let est_ok: Vec<f64> = if est_vals.iter().all(|r| r.is_ok()) { est_vals.iter().map(|r| *r.as_ref().unwrap()).collect() } else { vec![] };
     let s_term = format!(
-        "OR.rline_S {}%Z {} {} {} {} {} {} {} {} {} {}",
+        "OR.rline_S {}%Z {} {} {} {} {} {} {} {} {} {} {} {} {}",
         id,
+        w_term,
         c.coords.len(),
         coq_list(&c.edges, |e| format!("({}, {})", e.0, e.1)),
-        coq_list(&spec_costs, |x| coq_q(*x)),
         if c.reverse { "Search.Reverse" } else { "Search.Forward" },
         c.s,
         c.t,
         rr(&dj),
         rr(&ast),
         coq_bool(as_claim),
-        coq_list(&loc_vals.iter().filter_map(|r| r.clone().ok()).collect::<Vec<f64>>(), |x| coq_q(*x))
+        coq_list(&loc_vals.iter().filter_map(|r| r.clone().ok()).collect::<Vec<f64>>(), |x| coq_q(*x)),
+        coq_list(&est_ok, |x| coq_q(*x)),
+        coq_opt(&engine_max, |x| coq_q(*x)),
+        coq_list(&speeds, |x| coq_q(*x))
     );
     let _ = std::fs::remove_dir_all(&dir);
     Ok(RealRun { i_payload, j_payload, m_term, s_term, as_claim, dj_status: dj.0.clone(), as_status: ast.0.clone(), routes_differ: dj.1 != ast.1, hist })
@@ -995,6 +1093,21 @@ fn gen_objective(r: &mut Rng, c: &mut RealCase) {
     };
     c.cfg_w = gen_w(r);
     c.cfg_v = gen_v(r);
+    // a fifth of the configured objectives carry a Combined chain of 2-3 non-identity mappings on one feature
+    // (factors; a quarter of them with a non-negative offset, which takes A* out of the claim)
+    if r.chance(1, 5) {
+        let k = r.below(feats.len() as u64) as usize;
+        let fs = [0.5, 2.0, 0.125, 3.0, 0.01, 8.0];
+        let mut chain = vec![Rate::Factor(*r.pick(&fs)), Rate::Factor(*r.pick(&fs))];
+        if r.chance(1, 2) {
+            chain.push(Rate::Factor(*r.pick(&fs)));
+        }
+        if r.chance(1, 4) {
+            let at = r.below(chain.len() as u64 + 1) as usize;
+            chain.insert(at, Rate::Offset(*r.pick(&[0.5, 2.0, 16.0])));
+        }
+        c.cfg_v[k].1 = Rate::Combined(chain);
+    }
     if r.chance(1, 3) {
         c.q_w = Some(gen_w(r));
     }
@@ -1057,6 +1170,7 @@ fn blank_case(family: &str) -> RealCase {
         s: 0,
         t: 0,
         metric: true,
+        warm: vec![],
     }
 }
 
@@ -1072,9 +1186,10 @@ fn gen_network(r: &mut Rng, c: &mut RealCase, metric: bool) {
         }
     }
     let speeds: Vec<f64> = match c.su.as_str() {
-        "meters_per_second" => vec![5.0, 10.0, 15.0, 25.0, 33.0],
-        "miles_per_hour" => vec![15.0, 25.0, 35.0, 55.0, 70.0],
-        _ => vec![20.0, 30.0, 50.0, 80.0, 120.0],
+        // (rows well above SpeedUnit::max_american_highway_speed = 33.528 m/s, 75 mph, 120.675 kph in every unit)
+        "meters_per_second" => vec![5.0, 10.0, 15.0, 25.0, 33.0, 45.0, 56.0],
+        "miles_per_hour" => vec![15.0, 25.0, 35.0, 55.0, 70.0, 90.0, 125.0],
+        _ => vec![20.0, 30.0, 50.0, 80.0, 120.0, 160.0, 200.0],
     };
     let mut edges = vec![];
     for u in 0..n {
@@ -1133,6 +1248,31 @@ fn highway_network(c: &mut RealCase, extra_slow: usize, direct_speed: f64) {
     c.s = 0;
     c.t = 1;
     c.su = "kilometers_per_hour".into();
+}
+
+/// highway_network with table rows far above the "soft maximum" of the speed unit: detour at `fast`, direct road at
+/// 0.65 x fast, side streets slow.  The detour is optimal (45.2/fast against 54.9/fast) and stays so for A* only if the
+/// estimate is taken at the table's true maximum: at any bound below fast/1.43 the detour vertex looks worse than the
+/// direct road.
+fn fast_highway_network(c: &mut RealCase, su: &str, reverse: bool) {
+    let fast = match su {
+        "meters_per_second" => 56.0,
+        "miles_per_hour" => 125.0,
+        _ => 200.0,
+    };
+    highway_network(c, 4, (0.65f64 * fast).round());
+    for e in c.edges.iter_mut() {
+        if e.3 == 120.0 {
+            e.3 = fast;
+        } else if e.3 == 5.0 {
+            e.3 = (fast / 40.0).round();
+        }
+    }
+    c.su = su.to_string();
+    c.reverse = reverse;
+    if reverse {
+        std::mem::swap(&mut c.s, &mut c.t);
+    }
 }
 
 /// a chain of `hops` edges (one long edge next to the search origin, then short ones) against a single direct edge that
@@ -1339,6 +1479,86 @@ fn real_boundary() -> Vec<RealCase> {
             }
         }
     }
+    // speed tables with rows far above 75 mph / 120.675 kph / 33.528 m/s, in every speed unit: the estimate must be taken at
+    // the table's own maximum (and the engine's max_speed must BE that maximum)
+    for su in SPEED_UNITS.iter() {
+        for (du, tu, reverse) in [("kilometers", Some("minutes"), false), ("miles", Some("hours"), true), ("meters", None, false)] {
+            let mut c = blank_case("fast_highway");
+            fast_highway_network(&mut c, su, reverse);
+            c.du = Some(du.into());
+            c.tu = tu.map(|s| s.to_string());
+            c.cfg_w = w(0.0, 1.0);
+            c.cfg_v = raw();
+            out.push(c);
+        }
+    }
+    // Combined vehicle rates: a chain is applied one mapping after the other.  distance x 0.01 x 8 against time raw: the
+    // fast detour wins; with the last mapping alone (x 8) the short slow road would
+    for (name, chain, tw) in [
+        ("combined_two_factors", vec![Rate::Factor(0.01), Rate::Factor(8.0)], 1.0),
+        ("combined_three_factors", vec![Rate::Factor(0.5), Rate::Factor(0.02), Rate::Factor(8.0)], 1.0),
+        ("combined_with_offset", vec![Rate::Factor(0.01), Rate::Offset(2.0), Rate::Factor(8.0)], 1.0),
+        ("combined_time_chain", vec![Rate::Factor(8.0), Rate::Factor(0.01)], 0.0),
+    ] {
+        for reverse in [false, true] {
+            let mut c = blank_case(name);
+            two_route_network(&mut c);
+            c.du = Some("kilometers".into());
+            c.tu = Some("minutes".into());
+            if tw > 0.0 {
+                c.cfg_w = w(1.0, tw);
+                c.cfg_v = vec![("distance".to_string(), Rate::Combined(chain.clone())), ("time".to_string(), Rate::Raw)];
+            } else {
+                // the chain on time (x 8 x 0.01), distance raw: the short slow road wins; with x 0.01 alone as well, with x 8
+                // alone (first mapping only) the detour would
+                c.cfg_w = w(1.0, 1.0);
+                c.cfg_v = vec![("distance".to_string(), Rate::Raw), ("time".to_string(), Rate::Combined(chain.clone()))];
+            }
+            c.reverse = reverse;
+            if reverse {
+                std::mem::swap(&mut c.s, &mut c.t);
+            }
+            out.push(c);
+        }
+    }
+    {
+        let mut c = blank_case("combined_distance_model");
+        two_route_network(&mut c);
+        c.speed_model = false;
+        c.fdu = Some("miles".into());
+        c.cfg_w = vec![("distance".to_string(), 1.0)];
+        c.cfg_v = vec![("distance".to_string(), Rate::Combined(vec![Rate::Factor(0.621371), Rate::Factor(0.655)]))];
+        out.push(c);
+    }
+    // sequences on ONE application instance: a query with its own weights / rates / aggregation must not leak into the
+    // plain queries after it (nor the other way round)
+    let to_dist = json!({"weights": {"distance": 1.0, "time": 0.0}});
+    let v_rates = json!({"vehicle_rates": {"distance": {"type": "factor", "factor": 100.0}, "time": {"type": "raw"}}});
+    let to_mul = json!({"cost_aggregation": "mul"});
+    for (name, cw, warm, qw, reverse) in [
+        ("sequence_override_first", w(0.0, 1.0), vec![to_dist.clone()], None, false),
+        ("sequence_override_first", w(0.0, 1.0), vec![to_dist.clone()], None, true),
+        ("sequence_override_then_two_plain", w(0.0, 1.0), vec![to_dist.clone(), json!({})], None, false),
+        ("sequence_plain_then_override", w(0.0, 1.0), vec![json!({}), to_dist.clone()], None, false),
+        ("sequence_rates_override_first", w(1.0, 1.0), vec![v_rates.clone()], None, false),
+        ("sequence_aggregation_override_first", w(1.0, 1.0), vec![to_mul.clone()], None, false),
+        ("sequence_plain_then_own_weights", w(0.0, 1.0), vec![json!({})], Some(w(1.0, 0.0)), false),
+        ("sequence_override_then_own_weights", w(0.0, 1.0), vec![to_dist.clone(), json!({})], Some(w(0.5, 0.5)), true),
+    ] {
+        let mut c = blank_case(name);
+        two_route_network(&mut c);
+        c.du = Some("kilometers".into());
+        c.tu = Some("minutes".into());
+        c.cfg_w = cw;
+        c.cfg_v = raw();
+        c.q_w = qw;
+        c.warm = warm;
+        c.reverse = reverse;
+        if reverse {
+            std::mem::swap(&mut c.s, &mut c.t);
+        }
+        out.push(c);
+    }
     // many hops against few hops, every unit pair (edge-locality: the accumulator must not leak into an edge's cost)
     out.extend(chain_cases());
     // outside the hypothesis: product aggregation (A* makes no claim, Dijkstra still does)
@@ -1406,6 +1626,35 @@ fn run_real_stream(a: &Args) {
         if chain {
             // per-edge surcharges would dominate the 0.05-0.5 % margin
             c.cfg_n = None;
+        }
+        // an eighth of the random cases are the last query of a sequence on one application instance
+        if c.cfg_n.is_none() && !c.cfg_v.iter().any(|(_, x)| matches!(x, Rate::Combined(_))) && r.chance(1, 8) {
+            c.family = "random_sequence".into();
+            let k = r.range(1, 3);
+            let at = r.below(k as u64) as i64;
+            for i in 0..k {
+                if i == at || r.chance(1, 4) {
+                    let mut probe = c.clone();
+                    gen_objective(&mut r, &mut probe);
+                    let mut o = serde_json::Map::new();
+                    match r.below(3) {
+                        0 => {
+                            o.insert("weights".into(), assoc_json(&probe.cfg_w, |x| json!(x)));
+                        }
+                        1 => {
+                            let simple: Assoc<Rate> = probe.cfg_v.iter().map(|(k, v)| (k.clone(), if matches!(v, Rate::Combined(_)) { Rate::Factor(3.0) } else { v.clone() })).collect();
+                            o.insert("vehicle_rates".into(), assoc_json(&simple, rate_json));
+                        }
+                        _ => {
+                            o.insert("weights".into(), assoc_json(&probe.cfg_w, |x| json!(x)));
+                            o.insert("cost_aggregation".into(), json!("sum"));
+                        }
+                    }
+                    c.warm.push(Value::Object(o));
+                } else {
+                    c.warm.push(json!({}));
+                }
+            }
         }
         match r.below(6) {
             0 => c.alg_wf = Some(0.5),
